@@ -23,9 +23,21 @@ pub fn shrink(check: &dyn Check, trace: &Trace, env: &Env, key: &str, event: usi
         c.events.truncate(event + 1);
         if still_fails(check, &c, env, key) { best = c; }
     }
-    // 2. remove chunks of events (ddmin style), never the last one
+    // 2. most violations need one call: try "administrator events + last event", then the last event alone
+    if best.events.len() > 1 {
+        let last = best.events.len() - 1;
+        let mut c = best.clone();
+        c.events = best.events.iter().enumerate().filter(|(i, e)| *i == last || e.actor == crate::trace::ADMIN).map(|(_, e)| e.clone()).collect();
+        if c.events.len() < best.events.len() && still_fails(check, &c, env, key) { best = c; }
+        let mut c = best.clone();
+        c.events = vec![best.events[best.events.len() - 1].clone()];
+        if c.events.len() < best.events.len() && still_fails(check, &c, env, key) { best = c; }
+    }
+    // 2b. lines of the last event first (chunks, then single lines): the text is usually the bulk of the cost
+    shrink_lines(check, &mut best, env, key, &over, true);
+    // 2c. remove chunks of events (ddmin style), never the last one
     let mut chunk = (best.events.len() / 2).max(1);
-    while chunk >= 1 && !over() {
+    while chunk >= 1 && !over() && best.events.len() > 1 {
         let mut i = 0;
         let mut progress = false;
         while i + 1 < best.events.len() && !over() {
@@ -38,31 +50,8 @@ pub fn shrink(check: &dyn Check, trace: &Trace, env: &Env, key: &str, event: usi
         if chunk == 1 && !progress { break; }
         if !progress { chunk /= 2; }
     }
-    // 3. remove lines inside texts
-    let mut ei = 0;
-    while ei < best.events.len() && !over() {
-        let n = match text_of(&mut best.events[ei].op) { Some(t) => t.lines.len(), None => 0 };
-        let mut li = n;
-        while li > 0 && !over() {
-            li -= 1;
-            let mut c = best.clone();
-            if let Some(t) = text_of(&mut c.events[ei].op) {
-                if t.lines.len() <= 1 { break; }
-                t.remove_line(li);
-            }
-            if still_fails(check, &c, env, key) { best = c; }
-        }
-        // trailing newline / CRLF simplification
-        let mut c = best.clone();
-        if let Some(t) = text_of(&mut c.events[ei].op) {
-            if t.trailing_nl || t.crlf.iter().any(|x| *x) {
-                t.trailing_nl = false;
-                for x in t.crlf.iter_mut() { *x = false; }
-                if still_fails(check, &c, env, key) { best = c; }
-            }
-        }
-        ei += 1;
-    }
+    // 3. remove lines inside all texts
+    shrink_lines(check, &mut best, env, key, &over, false);
     // 4. freeze clocks
     for ei in 0..best.events.len() {
         if over() { break; }
@@ -99,4 +88,38 @@ pub fn shrink(check: &dyn Check, trace: &Trace, env: &Env, key: &str, event: usi
         }
     }
     best
+}
+
+fn shrink_lines(check: &dyn Check, best: &mut Trace, env: &Env, key: &str, over: &dyn Fn() -> bool, last_only: bool) {
+    let n_events = best.events.len();
+    let range: Vec<usize> = if last_only { vec![n_events - 1] } else { (0..n_events).collect() };
+    for ei in range {
+        let mut chunk = match text_of(&mut best.events[ei].op) { Some(t) => (t.lines.len() / 2).max(1), None => continue };
+        loop {
+            if over() { return; }
+            let n = text_of(&mut best.events[ei].op).map(|t| t.lines.len()).unwrap_or(0);
+            if n <= 1 { break; }
+            let mut progress = false;
+            let mut i = 0;
+            while i < text_of(&mut best.events[ei].op).map(|t| t.lines.len()).unwrap_or(0) && !over() {
+                let len = text_of(&mut best.events[ei].op).map(|t| t.lines.len()).unwrap_or(0);
+                let end = (i + chunk).min(len);
+                if end - i >= len { i += chunk; continue; }
+                let mut c = best.clone();
+                if let Some(t) = text_of(&mut c.events[ei].op) { for _ in i..end { t.remove_line(i); } }
+                if still_fails(check, &c, env, key) { *best = c; progress = true; } else { i += chunk; }
+            }
+            if chunk == 1 && !progress { break; }
+            if !progress { chunk = (chunk / 2).max(1); }
+        }
+        // trailing newline / CRLF simplification
+        let mut c = best.clone();
+        if let Some(t) = text_of(&mut c.events[ei].op) {
+            if t.trailing_nl || t.crlf.iter().any(|x| *x) {
+                t.trailing_nl = false;
+                for x in t.crlf.iter_mut() { *x = false; }
+                if still_fails(check, &c, env, key) { *best = c; }
+            }
+        }
+    }
 }
